@@ -362,3 +362,96 @@ package collection
 //@   requires rwOK(rw)
 //@   iterates fn count rwCount(rw) arg rw.win.buckets[(rwStart(rw)+idx)%rw.size]
 //@   modifies nothing
+
+// ---------------------------------------------------------------------------------------------
+// C16 RollingWindow bodies. bkBag[b] = bag of the values bucket b received since its last Reset (ghost history of the
+// BucketInterface calls, whatever the bucket type does with them).
+// ---------------------------------------------------------------------------------------------
+//@ ghost var bkBag map[any]map[float64]int
+
+//@ func (b BucketInterface) Add
+//@   property C16
+//@   ensures  bkBag[b] == upd(old(bkBag[b]), v, old(bkBag[b][v]) + 1)
+//@   modifies bkBag[b]
+//@   flag modifies_typeargs
+
+//@ func (b BucketInterface) Reset
+//@   property C16
+//@   ensures  forall(x.(float64), bkBag[b][x] == 0)
+//@   modifies bkBag[b]
+//@   flag modifies_typeargs
+
+//@ spec winOK(w *window) bool = w != nil && w.size >= 1 && len(w.buckets) == w.size && forall(i.(int), implies(0 <= i && i < w.size, w.buckets[i] != nil))
+
+//@ func (w *window) add
+//@   property C16
+//@   requires winOK(w) && offset >= 0
+//@   ensures  bkBag[w.buckets[offset%w.size]] == upd(old(bkBag[w.buckets[offset%w.size]]), v, old(bkBag[w.buckets[offset%w.size]][v]) + 1)
+//@   modifies bkBag[w.buckets[offset%w.size]]
+//@   flag modifies_typeargs
+
+//@ func (w *window) resetBucket
+//@   property C16
+//@   requires winOK(w) && offset >= 0
+//@   ensures  forall(x.(float64), bkBag[w.buckets[offset%w.size]][x] == 0)
+//@   modifies bkBag[w.buckets[offset%w.size]]
+//@   flag modifies_typeargs
+
+//@ func (w *window) reduce
+//@   property C16
+//@   requires winOK(w) && start >= 0 && count >= 0 && fn != nil
+//@   iterates fn count count arg w.buckets[(start+idx)%w.size]
+//@   flag noheap:fn
+//@   modifies calls(fn)
+//@   loop 0: modifies calls(fn)
+//@   loop 0: invariant 0 <= i && i <= count && calls(fn) == old(calls(fn)) + i
+
+// Epoch model of the rolling window. rwE[rw] = number of the interval ("epoch") the current bucket collects;
+// rwBagAt[rw][e] = bag of the values added during epoch e. Ring index i holds epoch epOf(rw, i); epochs after the
+// current one are empty. Time is tied to epochs by updateOffset: it advances rwE by the whole intervals elapsed and leaves
+// lastTime <= now < lastTime + interval.
+//@ ghost var rwE map[any]int
+//@ ghost var rwBagAt map[any]map[int]map[float64]int
+//@ spec epOf(rw *RollingWindow, i int) int = ite(i <= rw.offset, rwE[rw] - (rw.offset - i), rwE[rw] - (rw.offset - i + rw.size))
+//@ spec rwInv(rw *RollingWindow) bool = rwOK(rw) && rw.lastTime <= now &&
+//@      forall(i.(int), forall(j.(int), implies(0 <= i && i < j && j < rw.size, rw.win.buckets[i] != rw.win.buckets[j]))) &&
+//@      forall(i.(int), implies(0 <= i && i < rw.size, bkBag[rw.win.buckets[i]] == rwBagAt[rw][epOf(rw, i)])) &&
+//@      forall(e.(int), forall(x.(float64), implies(e > rwE[rw], rwBagAt[rw][e][x] == 0)))
+//@ spec elapsed(rw *RollingWindow) int = int((now - rw.lastTime) / rw.interval)
+// ring index reached from o by t steps, and whether ring index j lies within the i slots after o
+//@ spec wrap(x int, n int) int = ite(x < n, x, x - n)
+//@ spec inReset(j int, o int, i int, n int) bool = (j > o && j - o <= i) || (j <= o && j + n - o <= i)
+
+//@ lemma modWrap(x int, n int)
+//@   property C16
+//@   hyp n >= 1 && 0 <= x && x < 2*n
+//@   goal x % n == wrap(x, n) && (x % n) % n == wrap(x, n)
+
+//@ lemma remRange(a time.Duration, b time.Duration)
+//@   property C16
+//@   hyp a >= 0 && b > 0
+//@   goal 0 <= a % b && a % b < b && a - a % b == b * (a / b) && a / b >= 0
+
+//@ func (rw *RollingWindow) span
+//@   property C16
+//@   requires rwOK(rw)
+//@   ensures  result == rwSpan(rw)
+//@   modifies nothing
+
+//@ func (rw *RollingWindow) updateOffset
+//@   property C16
+//@   requires rwInv(rw)
+//@   flag modifies_typeargs
+//@   ghost at entry: lemma remRange(now - rw.lastTime, rw.interval)
+//@   ghost at entry: rwE[rw] = rwE[rw] + elapsed(rw)
+//@   ghost at begin loop 0: lemma modWrap(offset + i + 1, rw.size)
+//@   ghost at before Now#0: lemma modWrap(offset + span, rw.size)
+//@   ensures  rwInv(rw)
+//@   ensures  rw.lastTime <= now && now < rw.lastTime + rw.interval
+//@   ensures  rwE[rw] == old(rwE[rw]) + old(elapsed(rw))
+//@   modifies rw.offset, rw.lastTime, rwE[rw], bkBag
+//@   loop 0: modifies bkBag
+//@   loop 0: invariant 0 <= i && i <= span && rw.offset == offset
+//@   loop 0: invariant forall(j.(int), forall(x.(float64), implies(0 <= j && j < rw.size,
+//@              bkBag[rw.win.buckets[j]][x] == ite(inReset(j, offset, i, rw.size), 0, old(bkBag[rw.win.buckets[j]][x])))))
+//@   loop 0: invariant forall(b.(any), implies(forall(j.(int), implies(0 <= j && j < rw.size, rw.win.buckets[j] != b)), bkBag[b] == old(bkBag[b])))
